@@ -51,7 +51,8 @@ fn r#gen(rng: &mut Rng, thorough: bool) -> Scn {
     }
     if mode.ends_with("enc") && rng.chance(1, 3) {
         let g = s.bs as u64;
-        s.ops.push(Op::new("padded").n(rng.nbytes(6 * g, g)).via(rng.below(3) as u8).ty(rng.below(5) as u8));
+        let n = if rng.chance(1, 6) { rng.nbytes_long(g) } else { rng.nbytes(6 * g, g) };
+        s.ops.push(Op::new("padded").n(n).via(rng.below(3) as u8).ty(rng.below(5) as u8));
     }
     if mode.ends_with("dec") {
         s.set_num("honest", rng.below(3) as u128);
